@@ -180,6 +180,11 @@ VALUE_OPTS = ('--privkey-pem', '--pubkey-cert-pem', '--pubkey-cert-der', '--pubk
 FLAG_OPTS = ('--insecure',)
 
 
+def _read(path):
+    with open(path, 'rb') as f:
+        return f.read()
+
+
 def parse_args(argv):
     o = {'idattrs': [], 'pos': []}
     cmd = argv[0]
@@ -245,11 +250,11 @@ def start_node(doc, o, ids):
 def load_pub_file(o):
     try:
         if '--pubkey-cert-pem' in o:
-            return x509.load_pem_x509_certificate(open(o['--pubkey-cert-pem'], 'rb').read()).public_key()
+            return x509.load_pem_x509_certificate(_read(o['--pubkey-cert-pem'])).public_key()
         if '--pubkey-cert-der' in o:
-            return x509.load_der_x509_certificate(open(o['--pubkey-cert-der'], 'rb').read()).public_key()
+            return x509.load_der_x509_certificate(_read(o['--pubkey-cert-der'])).public_key()
         if '--pubkey-pem' in o:
-            return serialization.load_pem_public_key(open(o['--pubkey-pem'], 'rb').read())
+            return serialization.load_pem_public_key(_read(o['--pubkey-pem']))
     except Fail:
         raise
     except Exception as e:
@@ -259,7 +264,7 @@ def load_pub_file(o):
 
 def load_priv_file(path):
     try:
-        return serialization.load_pem_private_key(open(path, 'rb').read(), None)
+        return serialization.load_pem_private_key(_read(path), None)
     except Exception as e:
         raise Fail('Error: failed to load private key from "%s": %s' % (path, e))
 
@@ -594,7 +599,7 @@ def parse_in_context(doc, parent, data):
 # ------------------------------------------------------------------ commands
 
 def do_sign(o, info):
-    doc = parse_doc(open(o['pos'][0], 'rb').read(), info)
+    doc = parse_doc(_read(o['pos'][0]), info)
     ids = register_ids(doc, o['idattrs'])
     cur = start_node(doc, o, ids)
     sig = find_node(cur, DS, 'Signature')
@@ -614,7 +619,7 @@ def do_sign(o, info):
 
 
 def do_verify(o, info):
-    doc = parse_doc(open(o['pos'][0], 'rb').read(), info)
+    doc = parse_doc(_read(o['pos'][0]), info)
     ids = register_ids(doc, o['idattrs'])
     cur = start_node(doc, o, ids)
     sig = find_node(cur, DS, 'Signature')
@@ -634,10 +639,10 @@ def do_verify(o, info):
 
 def do_encrypt(o, info):
     from vp import env
-    tmpl = parse_doc(open(o['pos'][0], 'rb').read(), info)
+    tmpl = parse_doc(_read(o['pos'][0]), info)
     if '--xml-data' not in o:
         raise Fail('Error: only --xml-data encryption is modelled')
-    doc = parse_doc(open(o['--xml-data'], 'rb').read(), info)
+    doc = parse_doc(_read(o['--xml-data']), info)
     ids = register_ids(doc, o['idattrs'])
     if '--node-id' in o:
         target = ids.get(o['--node-id'])
@@ -675,7 +680,7 @@ def do_encrypt(o, info):
 
 
 def do_decrypt(o, info):
-    doc = parse_doc(open(o['pos'][0], 'rb').read(), info)
+    doc = parse_doc(_read(o['pos'][0]), info)
     ids = register_ids(doc, o['idattrs'])
     cur = start_node(doc, o, ids)
     ed = find_node(cur, XENC, 'EncryptedData')
